@@ -82,6 +82,7 @@ pub fn replay_value(rp: &Value) -> Vec<String> {
         "compile-total" => byteseng::replay_compile_total(rp),
         "compile-sizing" => byteseng::replay_compile_sizing(rp),
         "asm" => text::replay_asm(rp),
+        "asm-after" => text::replay_asm_after(rp),
         "asm-total" => text::replay_asm_total(rp),
         "disasm" => text::replay_disasm(rp),
         "disasm-print" => text::replay_disasm_print(rp),
